@@ -312,6 +312,10 @@ class RestAPI(object):
                     "Message body {} does not contain valid JSON".format(data)
                 )
 
+            # Every action takes its parameters from a JSON object.
+            if not isinstance(params, dict):
+                return aws_error("SerializationException"), 400
+
             # ------------------------------------------------------------------
 
             """
